@@ -88,11 +88,23 @@ Proof.
   destruct H as (l & E & F). exists l. split; [exact E | exact F].
 Qed.
 
+Lemma getattrs_nr : forall w parts owner s, nr s (snd (getattrs w owner parts s)).
+Proof.
+  intros w parts. induction parts as [| p r IH]; intros owner s; simpl; [apply nr_refl |].
+  destruct (lookup_attr (w_attr w) owner p) as [[y |] |]; [apply nr_refl | apply IH |].
+  destruct (mem_name owner (w_lazy w)); [| apply nr_refl].
+  unfold import_module.
+  pose proof (import_prefixes_nr w (owner ++ [p]) [] s) as H.
+  destruct (import_prefixes w [] (owner ++ [p]) s) as [res s1]. simpl in H.
+  destruct res; simpl; [exact H | eapply nr_trans; [exact H | apply IH]].
+Qed.
+
 Lemma dynamic_import_nr : forall w n paths s, nr s (snd (dynamic_import w n paths s)).
 Proof.
   intros w n paths s. unfold dynamic_import. apply with_sys_path_nr. intros s0.
   pose proof (dyn_attempts_nr w (rev n) [] s0) as H.
-  destruct (dyn_attempts w (rev n) [] s0) as [[x | [m objs]] s1]; exact H.
+  destruct (dyn_attempts w (rev n) [] s0) as [[x | [m objs]] s1]; [exact H |].
+  eapply nr_trans; [exact H | apply getattrs_nr].
 Qed.
 
 Lemma inspect_call_nr : forall w n file search s, nr s (snd (inspect_call w n file search s)).
